@@ -174,6 +174,8 @@ deriving DecidableEq, Repr
 inductive Upstream where
   | response (info : List Nat) (status : Nat) (chunks : List Nat)
   | error (e : UpErr)
+  /-- header and `chunks` arrive, then the connection to the upstream breaks in the middle of the body -/
+  | cut (info : List Nat) (status : Nat) (chunks : List Nat)
 deriving Repr
 
 /-- `httpProxyErrorHandler` -/
@@ -185,6 +187,7 @@ status, one `Write` per chunk read from the body; or the error handler's single 
 def upstreamOps : Upstream → List RWOp
   | .response info status chunks => info.map .header ++ [.header status] ++ chunks.map fun n => .write n n
   | .error e => [.header (errStatus e)]
+  | .cut info status chunks => info.map .header ++ [.header status] ++ chunks.map fun n => .write n n
 
 /-! ## ServeHTTP -/
 
@@ -208,6 +211,10 @@ inductive Served where
   | noRoute | denied | unauthorized | redirect | badRemote   -- answered by the proxy itself: no event is built
   | noStatus                                                  -- the handler never wrote a header (`rw.code <= 0`)
   | logged (e : LogEvent)
+  /-- the handler gave up with `panic(http.ErrAbortHandler)` (the upstream broke in the middle of the body): the
+  panic passes through `ServeHTTP` to net/http, which tears the client connection down — that is how the client
+  learns that the body it has is not the whole response. Nothing after `h.ServeHTTP` runs: no event. -/
+  | aborted
 deriving DecidableEq, Repr
 
 /-- `r.Header.Set(p.Config.RequestID, id())` when a request id header is configured -/
@@ -236,8 +243,21 @@ def serveOps (cfg : Cfg) (r : Req) (t : Option Target) (id : Bytes) (ops : List 
           requestURL := requestURL r1, upstreamURL := turl, upstreamAddr := turl.host, upstreamService := t.service,
           status := c.code, size := c.size }
 
+/-- did the request get as far as the handler (`h.ServeHTTP(rw, r)`)? -/
+def reachedHandler : Served → Bool
+  | .noStatus => true
+  | .logged _ => true
+  | .aborted => true
+  | _ => false
+
 def serve (cfg : Cfg) (r : Req) (t : Option Target) (id : Bytes) (up : Upstream) : Served :=
-  serveOps cfg r t id (upstreamOps up)
+  match up with
+  | .cut info st chunks =>
+    -- the reverse proxy relays what it got, then aborts the handler
+    if reachedHandler (serveOps cfg r t id (upstreamOps (.cut info st chunks))) then .aborted
+    else serveOps cfg r t id (upstreamOps (.cut info st chunks))
+  | up => serveOps cfg r t id (upstreamOps up)
+
 
 /-! ## headers whose value goes through the hand-written formatters -/
 
@@ -258,6 +278,7 @@ ResponseWriter.WriteHeader() for 1xx responses"): whatever the proxy set before 
 reverse proxy is gone after the first relayed 1xx response. -/
 def clientSTS (tls : Bool) (cfg : Cfg) : Upstream → Option (Outcome (List Char))
   | .response (_ :: _) _ _ => none
+  | .cut (_ :: _) _ _ => none
   | _ => stsHeader tls cfg
 
 /-- the `tlsver` table of `proxy/http_headers.go` -/
